@@ -133,6 +133,7 @@ def cases(tier, seed):
     yield from _block6(tier, seed)
     # ---- block 7: aromatic [nH] molecules
     yield from _block7(tier, seed)
+    yield from _block7n(tier, seed)
     # ---- block 4: every base-graph node order, both constructors
     for n in ((2, 3) if quick else (2, 3, 4)):
         for mol in g2.small_molecules(n, g2.ALPHA_CNO):
@@ -261,6 +262,24 @@ def _block7(tier, seed):
         for part in parts[:8 if quick else 40]:
             nf = max(part) + 1
             for i, r in enumerate(g2.covering_renderings(mol, part, (4 if quick else 8) if nf > 1 else 2, prng)):
+                base = list(range(nf))
+                if i % 2:
+                    prng.shuffle(base)
+                r['base'] = base
+                r['ctor'] = 'graph' if i % 3 == 2 else 'string'
+                yield {'fam': 'b7', 'smiles': smi, 'mol': mol, 'part': part, 'r': r}
+
+
+def _block7n(tier, seed):
+    """N-substituted aromatic nitrogens, cut at (at least) the exocyclic N-C bonds."""
+    quick = tier == 'quick'
+    for smi, mol, must_cut in g2.nsub_library():
+        prng = random.Random(seed * 23 + sum(map(ord, smi)))
+        parts = [p for p in g2.sampled_partitions(mol, prng, 60 if quick else 300, max_blocks=4)
+                 if _nh_partition_ok(mol, p) and all(p[a] != p[b] for a, b in must_cut)]
+        for part in parts[:6 if quick else 30]:
+            nf = max(part) + 1
+            for i, r in enumerate(g2.covering_renderings(mol, part, 4 if quick else 8, prng)):
                 base = list(range(nf))
                 if i % 2:
                     prng.shuffle(base)
